@@ -90,15 +90,33 @@ func (p ParamsSpec) New() (*channel.Params, error) {
 // also emit tuples NewParams refuses.  withAux=false yields the canonical
 // tuple of the fields the property lists (everything but aux).
 func refEncode(dur uint64, parts [][]byte, appDef []byte, nonce *big.Int, ledger, virtual bool, aux *channel.Aux) []byte {
+	ps := make([][]refEntry, len(parts))
+	for i, a := range parts {
+		ps[i] = []refEntry{{0, a}}
+	}
+	return refEncodeMaps(dur, ps, appDef, nonce, ledger, virtual, aux)
+}
+
+// refEntry is one (backend key, address bytes) entry of a participant map.
+type refEntry struct {
+	key  int32
+	addr []byte
+}
+
+// refEncodeMaps is refEncode for arbitrary participant maps (entries are
+// written in the given order; the library writes ascending keys).
+func refEncodeMaps(dur uint64, parts [][]refEntry, appDef []byte, nonce *big.Int, ledger, virtual bool, aux *channel.Aux) []byte {
 	var b bytes.Buffer
 	le := binary.LittleEndian
 	_ = binary.Write(&b, le, dur)
 	_ = binary.Write(&b, le, int32(len(parts)))
-	for _, a := range parts {
-		_ = binary.Write(&b, le, int32(1))
-		_ = binary.Write(&b, le, int32(0))
-		_ = binary.Write(&b, le, uint16(len(a)))
-		b.Write(a)
+	for _, m := range parts {
+		_ = binary.Write(&b, le, int32(len(m)))
+		for _, e := range m {
+			_ = binary.Write(&b, le, e.key)
+			_ = binary.Write(&b, le, uint16(len(e.addr)))
+			b.Write(e.addr)
+		}
 	}
 	if appDef == nil {
 		b.WriteByte(0)
